@@ -360,7 +360,11 @@ func (s *Server) Modify(ms spb.GRIBI_ModifyServer) error {
 					return
 				}
 			case in.Operation != nil:
-				s.doModify(cid, in.Operation, resultChan, errCh)
+				if !s.doModify(cid, in.Operation, resultChan, errCh) {
+					// A fatal error was reported, the RPC is being torn down so
+					// nothing further from this client is handled.
+					return
+				}
 				skipWrite = true
 			default:
 				errCh <- status.Errorf(codes.Unimplemented, "unimplemented handling of message %s", in)
@@ -771,12 +775,15 @@ func (s *Server) getElection() *electionDetails {
 // doModify implements a modify operation for a specific input set of AFTOperation
 // messages for the client with the specified cid. It writes the result to the supplied
 // ModifyResponse channel when successful, or writes the error to the supplied errCh.
-func (s *Server) doModify(cid string, ops []*spb.AFTOperation, resCh chan *spb.ModifyResponse, errCh chan error) {
+// It returns false once an error has been written: the error terminates the RPC, so
+// the remaining operations are not processed and the caller must not handle any
+// further message from the client.
+func (s *Server) doModify(cid string, ops []*spb.AFTOperation, resCh chan *spb.ModifyResponse, errCh chan error) bool {
 	cs, ok := s.getClientState(cid)
 	switch {
 	case !ok:
 		errCh <- status.Newf(codes.Internal, "operation received for unknown client, %s", cid).Err()
-		return
+		return false
 	case cs.params == nil || !cs.params.ExpectElecID || !cs.params.Persist:
 		// these are parameters that we do not support.
 		errCh <- addModifyErrDetailsOrReturn(
@@ -784,7 +791,7 @@ func (s *Server) doModify(cid string, ops []*spb.AFTOperation, resCh chan *spb.M
 			&spb.ModifyRPCErrorDetails{
 				Reason: spb.ModifyRPCErrorDetails_UNSUPPORTED_PARAMS,
 			})
-		return
+		return false
 	}
 
 	elec := s.getElection()
@@ -836,11 +843,14 @@ func (s *Server) doModify(cid string, ops []*spb.AFTOperation, resCh chan *spb.M
 		res, err := modifyEntry(s.masterRIB, ni, o, cs.params.FIBAck, elec)
 		switch {
 		case err != nil:
+			// The error ends the RPC, the remaining operations are not processed.
 			errCh <- err
+			return false
 		default:
 			resCh <- res
 		}
 	}
+	return true
 }
 
 // electionDetails provides a summary of a single election from the perspective of one client.
